@@ -739,6 +739,17 @@ def run(ctx):
     ctx.exhaustive_parts.append("cancellation of each task at each of its first 10 (thorough: 16) instrumented awaits (lock acquire, write, read, "
                                 "backoff sleep, reconnect, interval sleep) for the covered task sets")
 
+    infos, _outs = evaluate(ctx, cases)
+    ctx.traces_validated += 2 * len(infos)
+    if infos:
+        for k in (0, len(infos) // 2, -1):
+            case, r = infos[k][0], infos[k][1]
+            ctx.sample({"spec": case["spec"], "cancel_at": case["cancel_at"], "sched": " ".join(r["sched"])[:1200]})
+
+
+def evaluate(ctx, cases):
+    """cases: [(spec, cancel_at)] -> (infos, outs): every case is run under virtual time, its event trace and its schedule are replayed through
+    the Lean models and judged (ctx.disagree); outs[k] = the driver's lines for infos[k] (acceptor line, multi-task lines, foreign lines)"""
     lines, infos = [], []
     for sp, cancel_at in cases:
         ctx.ev()
@@ -767,8 +778,10 @@ def run(ctx):
         infos.append((case, r, start, len(ml), tids, fl))
         ctx.nontrivial(" ".join(r["sched"]))
     out = ctx.lean(lines)
+    outs = []
     for case, r, start, nml, tids, fl in infos:
         events = r["events"]
+        outs.append(out[start: start + 1 + nml + len(fl)])
         judge_old(ctx, case, events, out[start])
         mo = out[start + 1: start + 1 + nml]
         fo = out[start + 1 + nml: start + 1 + nml + len(fl)]
@@ -781,11 +794,7 @@ def run(ctx):
                              spec_violated=(cls == "foreign"), site="UDSClient.request_unsafe / helpers.parse_pdu")
         judge_serial(ctx, case, r)
         judge_multi(ctx, case, r, mo, tids)
-    ctx.traces_validated += 2 * len(infos)
-    if infos:
-        for k in (0, len(infos) // 2, -1):
-            case, r = infos[k][0], infos[k][1]
-            ctx.sample({"spec": case["spec"], "cancel_at": case["cancel_at"], "sched": " ".join(r["sched"])[:1200]})
+    return infos, outs
 
 
 def judge_old(ctx, case, events, o):
@@ -922,6 +931,99 @@ def judge_multi(ctx, case, r, mo, tids):
 def search(ctx):
     ctx.widened = True
     run(ctx)
+
+
+# ------------------------------------------------------------------------------------------------- replay of one recorded case
+
+_CLAUSES = [
+    (("conc:rejected:", "conc:exchange-interleaved"),
+     "exchanges are serialised: between the transmission of a request and the delivery of its final reply - including responsePending "
+     "extensions and retries - no other request is transmitted on that transport (every wire operation is made by the task that holds the client lock)"),
+    (("conc:foreign-reply-delivered", "multi:outcome:reply-where-model-illegal"),
+     "every caller receives either the reply to its own request or an error, never a reply that belongs to a different request"),
+    (("conc:stall", "conc:caller-blocked-forever", "conc:lock-still-held-at-end"),
+     "a caller that is cancelled or fails releases the client so the others make progress (nobody is left waiting, the lock is free at the end)"),
+]
+
+
+def _clause(key):
+    for prefixes, text in _CLAUSES:
+        if key.startswith(prefixes):
+            return text
+    return ""
+
+
+def _spec_from_json(sp):
+    """the spec as the generator made it (json turned tuples into lists; scenario() only indexes and unpacks, so lists do)"""
+    sp = dict(sp)
+    sp["tasks"] = [tuple(d) for d in sp.get("tasks", [])]
+    return sp
+
+
+def _fmt_task(d):
+    if d[0] == "req":
+        calls = ", ".join(f"{api} {did_pdu(did).hex()} script={script} max_retry={mr}" for api, did, script, mr in d[2])
+        return f"caller at +{d[1]}s: {calls}"
+    return {"wfe": "wait_for_ecu()", "reconnect": "reconnect()"}.get(d[0], d[0]) + f" at +{d[1]}s"
+
+
+def replay(ctx, payload):
+    """re-run one recorded case (task set with reply scripts, worker scripts, reconnect outcomes, optional cancellation point): the real ECU
+    client under virtual time, its event trace through the lock-discipline acceptor and its schedule through the multi-task model; prints both
+    sides; 1 when a clause of the property or the tie still fails on this case"""
+    from lib import replaylib
+    setup_repo_import()
+    import gallia.command  # noqa: F401
+    import sys
+    mod = sys.modules[__name__]
+    finding, origin = replaylib.pick(payload)
+    replaylib.header(payload, finding, origin)
+    if finding is None:
+        return int(replaylib.obligations(mod, payload))
+    case = finding["case"]
+    spec = _spec_from_json(case["spec"])
+    cancel_at = tuple(case["cancel_at"]) if case.get("cancel_at") else None
+    print("case    : " + "; ".join(_fmt_task(d) for d in spec["tasks"]))
+    print(f"          tester-present worker: {'on, ping scripts ' + str(spec.get('worker_scripts') or ['imm']) if spec.get('worker') else 'off'}"
+          f"; reconnect outcomes: {spec.get('rc') or '-'}; "
+          + (f"task {cancel_at[0]} cancelled at its instrumented await no. {cancel_at[1]}" if cancel_at else "no cancellation"))
+    infos, outs = evaluate(ctx, [(spec, cancel_at)])
+    if infos:
+        _case, r, _start, nml, tids, fl = infos[0]
+        o = outs[0]
+        print("impl : schedule : " + " ".join(r["sched"])[:3000])
+        print("impl : lock/wire: " + _fmt(r["events"])[:3000])
+        for i, rs in sorted(r["results"].items()):
+            for n, res in rs:
+                req = r["reqs"].get((i, n))
+                print(f"impl : task {i} call {n}" + (f" (request {req.hex()})" if req else "") + f" -> {' '.join(map(str, res))}")
+        if r["misuse"]:
+            print("impl : wire operations completed without holding the lock: " + ", ".join(f"step {k}: task {t} `{lab}` (holder {h})" for k, t, lab, h in r["misuse"][:10]))
+        print("model: acceptor : " + o[0][:600])
+        for i, ln in zip(tids, o[2: nml]):
+            print(f"model: task {i} program outcome per call: {ln[:400]}")
+        print("model: schedule : " + o[nml][:1200])
+        for (i, n, rep), cls in zip(fl, o[1 + nml:]):
+            print(f"model: reply {rep} to request {r['reqs'][(i, n)].hex()} of task {i}: {cls}")
+    else:
+        # the run never finishes / leaves callers blocked: the check reports that without going to the model; show what there is
+        try:
+            r, _vt = vrun(scenario(spec, cancel_at), horizon=1e5)
+        except Stall as e:
+            r = None
+            print(f"impl : the scenario never finishes under virtual time: {e}")
+        if r is not None:
+            print(f"impl : {r['stuck']} task(s) still blocked 120 virtual seconds after everybody else finished (cancelled by the harness)")
+            print("impl : schedule : " + " ".join(r["sched"])[:3000])
+            print("impl : lock/wire: " + _fmt(r["events"])[:3000])
+            for i, rs in sorted(r["results"].items()):
+                for n, res in rs:
+                    print(f"impl : task {i} call {n} -> {' '.join(map(str, res))}")
+            o = ctx.lean(["accept " + _fmt(r["events"])])[0]
+            print("model: acceptor on that trace (incl. the harness' cancellations): " + o[:600])
+        print("model: in every schedule of the multi-task model a caller that ends, fails or is cancelled hands the lock over and every waiter gets it "
+              "(progress_multi, handover_on_cancel, fifo_fairness): no run leaves a caller blocked")
+    return replaylib.verdict(ctx, finding, _clause)
 
 
 MANIFEST = {
